@@ -510,6 +510,21 @@ impl<'a> NNumReal<'a> {
             NNumReal::Float(f) => BigRational::from_float(*f),
         }
     }
+
+    // -1 or 1 for an infinite float, 0 for everything else: an infinity compares against every
+    // exact (finite) value by its sign alone
+    fn infinite_signum(&self) -> i8 {
+        match self {
+            NNumReal::Float(f) if f.is_infinite() => {
+                if f.is_sign_positive() {
+                    1
+                } else {
+                    -1
+                }
+            }
+            _ => 0,
+        }
+    }
 }
 
 fn to_nint_if_int(f: f64) -> Option<NInt> {
@@ -546,7 +561,11 @@ impl<'a> PartialOrd for NNumReal<'a> {
             (NNumReal::Int(a), NNumReal::Float(b)) => cmp_nint_f64(a, b),
             (NNumReal::Float(a), NNumReal::Int(b)) => cmp_nint_f64(b, a).map(|ord| ord.reverse()),
             (NNumReal::Float(a), NNumReal::Float(b)) => a.partial_cmp(b),
-            (a, b) => a.exact_to_rational()?.partial_cmp(&b.exact_to_rational()?),
+            (a, b) => match (a.exact_to_rational(), b.exact_to_rational()) {
+                (Some(a), Some(b)) => a.partial_cmp(&b),
+                _ if a.is_nan() || b.is_nan() => None,
+                _ => Some(a.infinite_signum().cmp(&b.infinite_signum())),
+            },
         }
     }
 }
@@ -566,7 +585,10 @@ impl<'a> NNumReal<'a> {
             } // note swap
             (a, b) => match (a.exact_to_rational(), b.exact_to_rational()) {
                 (Some(a), Some(b)) => a.cmp(&b),
-                _ => b.is_nan().cmp(&a.is_nan()),
+                _ => b
+                    .is_nan()
+                    .cmp(&a.is_nan())
+                    .then(a.infinite_signum().cmp(&b.infinite_signum())),
             },
         }
     }
@@ -583,7 +605,10 @@ impl<'a> NNumReal<'a> {
             }
             (a, b) => match (a.exact_to_rational(), b.exact_to_rational()) {
                 (Some(a), Some(b)) => a.cmp(&b),
-                _ => a.is_nan().cmp(&b.is_nan()),
+                _ => a
+                    .is_nan()
+                    .cmp(&b.is_nan())
+                    .then(a.infinite_signum().cmp(&b.infinite_signum())),
             },
         }
     }
